@@ -439,7 +439,7 @@ def shrink_item(item, rerun_case):
     mode = item["mode"]
     if mode == "c03e2e":
         return shrink_e2e(item, rerun_case)
-    if mode in ("c04cli", "c04os", "c19cli"):
+    if mode in ("c04cli", "c04os", "c19cli", "c04ev"):
         return item          # already small; their tokens are not those of a loop case
 
     def fails(case_line):
@@ -775,3 +775,56 @@ def c19_cli_stream(name, cases):
                   describe="real runner, tuned size, benchmark on the virtual clock, max_time as the only runtime option (cli / env / "
                            "builder before config_with_args) to benches with and without attribute or group options: round sizes and "
                            "rounds read from the event log vs the model driven by the same history")
+
+
+# ---------------------------------------------------------------------------
+# C04 end to end: skip_ext_time from attribute / group / builder, with external time
+# ---------------------------------------------------------------------------
+
+def skip_ext_cases(rng, count):
+    """Benches of hx-loop-e2e whose input generator advances the virtual clock (external time) and which get
+    skip_ext_time from their attribute, their group, or not at all; the builder sets skip_ext_time(false/true)
+    or nothing, before or after the time limit; the effective value (builder over attribute) goes to the model."""
+    benches = [("vskip_attr", 1), ("vskip_grp", 1), ("vext_plain", 0)]
+    cases = []
+
+    def case(bench, attr_skip, bskip, border, lim, which="maxs", n="-", cost=100_000, gen=300_000, tvia="builder"):
+        eff = attr_skip if bskip is None else bskip
+        # a sample count can only come from the runner here (the benches set none): by the builder
+        via = "attr" if n == "-" else "builder"
+        toks = [f"bench={bench} via={via} mode=b n={n} s=1 threads=1 {which}={lim} tvia={tvia}"]
+        if bskip is not None:
+            toks.append(f"bskip={bskip} border={border}")
+        toks.append(f"eskip={eff} vcost={cost} vgen={gen} evlog=1")
+        return " ".join(toks)
+    for bench, a in benches:
+        for bskip in (None, 0, 1):
+            for border in (("mf",) if bskip is None else ("sf", "mf")):
+                cases.append(case(bench, a, bskip, border, "0.000001"))
+        cases.append(case(bench, a, 0, "sf", "0.000001", tvia="cli"))          # limit on the command line, skip by the builder
+        cases.append(case(bench, a, 0, "mf", "0.0000012", which="mins", n=1))   # a floor instead of a ceiling
+    while len(cases) < count:
+        bench, a = rng.choice(benches)
+        bskip = rng.choice([None, 0, 0, 1])
+        cost = rng.choice([100_000, 40_000, 999])
+        gen = rng.choice([300_000, 1_000_000, 50_000])
+        k = rng.randrange(1, 15)
+        eff = a if bskip is None else bskip
+        per = max(cost, 1000) if eff else cost + gen
+        lim = decimal_secs(max(1, (k * per + rng.choice([-1000, 0, 1000])) // 1000))
+        which = rng.choice(["maxs", "maxs", "mins"])
+        c = case(bench, a, bskip, rng.choice(["sf", "mf"]), lim, which=which, n=("-" if which == "maxs" else rng.randrange(1, 3)),
+                 cost=cost, gen=gen, tvia=rng.choice(["builder", "cli", "env"]))
+        if c not in cases:
+            cases.append(c)
+    return cases
+
+
+def skip_ext_stream(name, cases):
+    def nt(case, model_line):
+        return "sizes=" in model_line and "," in model_line.split("sizes=")[1]
+    return Stream(name, "c04ev", cases, compare=compare, nontrivial=nt, model_input=model_input, crate="hx-loop", drv="loop",
+                  impl_timeout=600,
+                  describe="real runner on the virtual clock, generator time outside the timed sections, skip_ext_time from the attribute / "
+                           "the group / Divan::skip_ext_time(false|true) before or after the limit: rounds read from the event log vs the "
+                           "model driven by the same history with the resolved setting")
